@@ -20,6 +20,7 @@ __all__ = [
 ]
 VPK_SIG: Final = 0x55aa1234  #: The first byte of VPK files.
 DIR_ARCH_INDEX: Final = 0x7fff  #: The file index used for the ``_dir`` file.
+MAX_DIR_DATA: Final = 0xffff  #: The most data the directory can hold for a file, the length is a 16-bit field.
 FileName: TypeAlias = Union[str, tuple[str, str], tuple[str, str, str]]
 
 
@@ -224,17 +225,18 @@ class FileInfo:
         self.crc = new_checksum
         # noinspection PyProtectedMember
         prefix = self.vpk._dir_prefix
+        dir_limit = self.vpk.dir_limit
 
         if prefix is None:
-            self.start_data = data
-            self.arch_len = 0
-            return
+            # Singular VPKs have no numeric files. Keep as much as possible in the directory,
+            # any remainder goes after the tree.
+            dir_limit = None
+            arch_index = None
 
-        dir_limit = self.vpk.dir_limit
-        if dir_limit is None:
-            # No limit, everything is stored in the directory. Slicing with None would instead
-            # produce a second full copy of the data for the archive.
-            dir_limit = len(data)
+        if dir_limit is None or dir_limit > MAX_DIR_DATA:
+            # No limit. The directory entry stores the length of its data in 16 bits though,
+            # so whatever exceeds that still has to go to the archive.
+            dir_limit = MAX_DIR_DATA
         self.start_data = data[:dir_limit]
         arch_data = data[dir_limit:]
 
@@ -249,6 +251,7 @@ class FileInfo:
                 self.offset = len(self.vpk.footer_data)
                 self.vpk.footer_data += arch_data
             else:
+                assert prefix is not None  # arch_index is None for singular VPKs.
                 arch_file = get_arch_filename(prefix, arch_index)
                 with open(os.path.join(self.vpk.folder, arch_file), 'ab') as file:
                     self.offset = file.seek(0, os.SEEK_END)
@@ -290,7 +293,7 @@ class VPK:
     """
     The maximum amount of data for files saved to the dir file.
 
-    - :external:py:data:`None`: No limit.
+    - :external:py:data:`None`: No limit, other than the 65535 bytes the format allows per file.
     - ``0``: Save all to a data file.
     """
 
